@@ -170,8 +170,11 @@ func (r *real) ExecHint(line string) (out string, twinLine string) {
 		interHints, interMid := "", "-"
 		if v, ok := kv(args[1:], "inter"); ok {
 			kS, bid, _ := strings.Cut(v, ":")
-			k, _ := strconv.Atoi(kS)
-			o.Before = func(j int) {
+			// `a<k>`: after the store call / request whose last effect is k has returned (the invocation may
+			// read the stores again before its next write); `<k>`: just before effect k
+			afterMode := strings.HasPrefix(kS, "a")
+			k, _ := strconv.Atoi(strings.TrimPrefix(kS, "a"))
+			hook := func(j int) {
 				if j != k || ires != nil {
 					return
 				}
@@ -193,6 +196,11 @@ func (r *real) ExecHint(line string) (out string, twinLine string) {
 				ires = &r2
 				interHints = hintsFor(s, rid, "i.")
 				interMid = midState(s.State())
+			}
+			if afterMode {
+				o.After = hook
+			} else {
+				o.Before = hook
 			}
 		}
 		res := s.Run(args[0], o)
@@ -309,4 +317,12 @@ func (r *real) applyFault(args []string) bool {
 		return false
 	}
 	return true
+}
+
+// NewRealForTools returns an executor of v2.* lines on the real system (developer tools).
+func NewRealForTools() interface {
+	Exec(string) string
+	Close()
+} {
+	return newReal()
 }
